@@ -105,7 +105,12 @@ type veEnv struct {
 	versionOf         func(name, hash string) string
 	failHeadOf        string
 	failHeadN         int
+	corruptOf         string // the first byte of this file is damaged on the way, the first corruptN times it is sent
+	corruptN          int
 	slowOpenAfterFail time.Duration
+	failOpenOf        string // the next failOpenN opens of this file fail once failOpenArmed is set (unreadable for a moment)
+	failOpenN         int
+	failOpenArmed     int32
 	failedSeen        map[string]bool
 	freezeOnTxOf      string
 	freezeOnPollOf    string
@@ -225,7 +230,16 @@ func (s *veStore) GetOpener() sts.Open {
 		s.e.mu.Lock()
 		slow := s.e.slowOpenAfterFail > 0 && s.e.failedSeen[f.GetName()]
 		d := s.e.slowOpenAfterFail
+		failNow := false
+		if s.e.failOpenOf != "" && f.GetName() == s.e.failOpenOf && atomic.LoadInt32(&s.e.failOpenArmed) == 1 && s.e.failOpenN > 0 {
+			s.e.failOpenN--
+			failNow = true
+		}
 		s.e.mu.Unlock()
+		if failNow {
+			s.e.ev("openfail", f.GetName(), "the file cannot be read at this moment")
+			return nil, errors.New("open " + f.GetName() + ": permission denied (injected)")
+		}
 		if slow {
 			time.Sleep(d)
 		}
@@ -301,12 +315,15 @@ func (l *veSentLog) Sent(f sts.Sent) {
 	if got < f.GetSize() {
 		l.e.sentEarly++
 	}
+	l.e.mu.Unlock()
+	l.e.ev("sentlog", f.GetName(), fmt.Sprintf("%d/%d", got, f.GetSize()))
+	// (counted only here: a sender that "died" is frozen inside ev() and never writes the record)
+	l.e.mu.Lock()
 	if l.e.sentLogged == nil {
 		l.e.sentLogged = map[string]int{}
 	}
 	l.e.sentLogged[f.GetName()+"|"+f.GetHash()]++
 	l.e.mu.Unlock()
-	l.e.ev("sentlog", f.GetName(), fmt.Sprintf("%d/%d", got, f.GetSize()))
 	l.FileIO.Sent(f)
 }
 
@@ -413,6 +430,18 @@ func (e *veEnv) transmit(p sts.Payload) (int, error) {
 		}
 		if f.kind == "corrupt" && f.at == i && len(buf) > 0 {
 			buf[0] ^= 0x5a
+		}
+		if w.name == e.corruptOf && w.beg == 0 && len(buf) > 0 {
+			e.mu.Lock()
+			hit := e.corruptN > 0
+			if hit {
+				e.corruptN--
+			}
+			e.mu.Unlock()
+			if hit {
+				buf[0] ^= 0x33
+				e.ev("corrupt", w.name, "first byte damaged on the way")
+			}
 		}
 		file := &sts.Partial{Name: w.name, Renamed: w.renamed, Prev: w.prev, Size: w.size,
 			Time: marshal.NanoTime{Time: w.t}, Hash: w.hash, Source: "src",
@@ -556,6 +585,10 @@ func (e *veEnv) validate(sent []sts.Pollable) ([]sts.Polled, error) {
 	}
 	if pf == "slow" {
 		time.Sleep(1300 * time.Millisecond) // the answer takes longer than the idle period of the retry workers
+		if e.failOpenOf != "" {
+			// ... and the unreadable file becomes readable shortly after the answer is in
+			go func() { time.Sleep(150 * time.Millisecond); atomic.StoreInt32(&e.failOpenArmed, 0) }()
+		}
 	}
 	if pf == "err" || !e.st.Ready() {
 		e.ev("poll", "err", "")
@@ -651,8 +684,11 @@ type veScenario struct {
 	stopAtPoll        bool          // stop while the first poll answer is on its way back
 	crashAfterTx      int           // crash at the k-th interface event counted from the first answer to a data request
 	slowOpenAfterFail time.Duration // re-reading a file whose validation failed takes this long
+	failOpenN         int           // profile swapfail: the swapped-in version cannot be opened this many times
 	failHeadOf        string        // the request carrying the first part of this file is refused failHeadN times
 	failHeadN         int
+	corruptOf         string        // this file fails validation corruptN times in a row (damaged on the way), then goes through
+	corruptN          int
 	goneWhileDown     bool   // crash profiles: one unfinished source file is removed while the sender is down
 	swap              string // name of a file replaced by a same-size version (mtime in the same second) right after its last byte was received
 	scanDelay         time.Duration
@@ -751,6 +787,7 @@ func veRun(tmp string, sc veScenario) string {
 		acked: map[string]int64{}, sentBytes: map[string]int64{}, txRanges: map[string][][2]int64{},
 		crashed: make(chan bool, 1), block: make(chan bool),
 		faults: append([]veFault{}, sc.faults...), pollFault: append([]string{}, sc.pollFault...),
+		corruptOf: sc.corruptOf, corruptN: sc.corruptN, failOpenN: sc.failOpenN,
 		failHeadOf: sc.failHeadOf, failHeadN: sc.failHeadN, slowOpenAfterFail: sc.slowOpenAfterFail,
 		jam: sc.jam, burstMin: sc.burstMin, delDelay: sc.delDelay, freezeOnPollOf: sc.crashOnPollOf, freezeAt: sc.crashAt, freezeAfterTx: sc.crashAfterTx, stopAt: sc.stopAt, stopAfterTx: sc.stopAfterTx, stopAtPoll: sc.stopAtPoll}
 	for _, d := range []string{e.out, e.cacheDir, e.stageDir, e.finalDir} {
@@ -791,6 +828,9 @@ func veRun(tmp string, sc veScenario) string {
 			os.Chtimes(p, t0, t0)
 			fc := f
 			e.swapName, e.swapSize = f.name, int64(f.size)
+			if sc.failOpenN > 0 {
+				e.failOpenOf = f.name
+			}
 			e.swapFn = func() {
 				tmpf := filepath.Join(e.root, "swap-tmp")
 				os.WriteFile(tmpf, veContent(fc, 100), 0o644)
@@ -798,6 +838,7 @@ func veRun(tmp string, sc veScenario) string {
 				os.Chtimes(tmpf, t1, t1)
 				os.Rename(tmpf, p)
 				atomic.StoreInt32(&swapDone, 1)
+				atomic.StoreInt32(&e.failOpenArmed, 1)
 			}
 		}
 	}
@@ -952,7 +993,9 @@ func veRun(tmp string, sc veScenario) string {
 					}
 				}
 			}
-			if sc.stopKind == "" && deliveredOK() == len(eligible) && allDone(b0.Conf.Cache) {
+			if sc.stopKind == "" && (!sc.reuse || reused || len(eligible) == 0) && deliveredOK() == len(eligible) && allDone(b0.Conf.Cache) {
+				// (a reuse scenario is over when the NEW version is delivered: between "old version
+				// delivered and marked done" and "old version removed" the condition holds by accident)
 				sendStop(true)
 			}
 			time.Sleep(10 * time.Millisecond)
@@ -1417,6 +1460,18 @@ func veGen(r *gen.Rand, id string, profile string) veScenario {
 		sc.chunk = sc.payload
 		sc.files[0].size = int(sc.payload) * (2 + r.Intn(3)) // whole payloads: the last part is not held back by the binner
 		sc.failHeadOf, sc.failHeadN = "g.big", 2+r.Intn(4)
+	case "refail":
+		// one file fails validation several times in a row (its first byte is damaged on the way, re-send
+		// after re-send), now and then with a poll answered "unknown" in between; then the line is clean
+		for _, f := range sc.files {
+			if f.eligible && !f.link && (sc.corruptOf == "" || r.Chance(1, 3)) {
+				sc.corruptOf = f.name
+			}
+		}
+		sc.corruptN = 2 + r.Intn(3)
+		for i := 0; i < r.Intn(3); i++ {
+			sc.pollFault = append(sc.pollFault, []string{"none", ""}[r.Intn(2)])
+		}
 	case "pollnone":
 		// the first requests are swallowed on the way (answered 200, never reach the receiver): the
 		// receiver answers "unknown" poll after poll; nothing may be released, everything is sent again
@@ -1497,6 +1552,17 @@ func veGen(r *gen.Rand, id string, profile string) veScenario {
 		}
 		sc.del = true
 		sc.scanDelay = 400 * time.Millisecond
+	case "swapfail":
+		// as swap, with another size, and the new version cannot be read the first time the scanner wants
+		// to hash it (unreadable for a moment): it is in the cache without a hash when the confirmation of
+		// the OLD version comes in
+		if len(sc.files) > 0 {
+			sc.swap = sc.files[r.Intn(len(sc.files))].name
+		}
+		sc.del = true
+		sc.scanDelay = time.Duration(20+r.Intn(60)) * time.Millisecond
+		sc.failOpenN = 100000
+		sc.pollFault = []string{"slow"}
 	case "eligible":
 		// files that must not be sent: empty, too young, hidden, ignored, not included, lock files
 		sc.minAge = 10 * time.Second
